@@ -298,6 +298,11 @@ def spec_c08(obs, lines, final_quiescent=True):
                 bound = sum(1 for t in toks[: closers[-1]] if t == "other")
                 if int(d["deliv"]) - int(prev["deliv"]) > bound:
                     return "delivery-after-closing-frame", i
+        # a DisconnectRequest that is dispatched closes the connection in the very step that answers it (anything later in
+        # the chunk finds it closed)
+        if prev is not None and l.startswith("cn.ev data") and "discreq" in l.split(" ")[2:] and prev.get("st") in ("hsDone", "connected") \
+                and d["st"] != "closed":
+            return "not-closed-by-disconnect-request", i
         prev = d
         # "for any cause or combination of causes": the end of the stream or the loss of the transport closes the connection,
         # whatever was recorded before
